@@ -256,6 +256,15 @@ def cmpFlags (op : String) : Option (Bool × Bool × Bool) :=
 /-- `limit op iv` read as a condition on iv: the direction flips, inclusiveness stays -/
 def flipForRight (isNEQ isUp0 : Bool) : Bool := if !isNEQ then !isUp0 else isUp0
 
+/-- what `deriveTripCount` stores once it has found the IV, the limit and the flags
+    (`none` = the loop's TripCount field is left as it was) -/
+def decideTripCount (isNEQ isUp isInc : Bool) (iv : InductionVariable) (limit : SCEV) : Option SCEV :=
+  match directionCheck isNEQ isUp isInc iv limit with
+  | .done tc => some tc
+  | .proceed =>
+    if !stepSignOk isNEQ isUp iv then some (.unknown none false)
+    else tripCountFormula isNEQ isUp isInc iv limit
+
 /-- `deriveTripCount(loop)` -/
 def deriveTripCount (f : Func) (l : Loop) : Loop :=
   match l.exits with
@@ -310,14 +319,9 @@ def deriveTripCount (f : Func) (l : Loop) : Loop :=
             | some limit =>
               let (limitSCEV, l) := toSCEV f l limit
               if !limitSCEV.isLoopInvariant f l then l else
-              match directionCheck isNEQ isUpCounting isInclusive iv limitSCEV with
-              | .done tc => { l with tripCount := some tc }
-              | .proceed =>
-                if !stepSignOk isNEQ isUpCounting iv then
-                  { l with tripCount := some (.unknown none false) } else
-                match tripCountFormula isNEQ isUpCounting isInclusive iv limitSCEV with
-                | some tc => { l with tripCount := some tc }
-                | none => l
+              match decideTripCount isNEQ isUpCounting isInclusive iv limitSCEV with
+              | some tc => { l with tripCount := some tc }
+              | none => l
   | _ => { l with tripCount := some (.unknown none false) }
 
 /-- the stack walk of `AnalyzeSCEV`: pop the LAST loop, analyse it, push its children -/
